@@ -1818,7 +1818,11 @@ fn seqs<W: Write>(r: &mut Rng, cfg: &TermCfg, n: usize, o: &mut Out<W>) {
                 continue;
             }
             for (i, s) in inputs.iter().enumerate() {
+                // (the watchdog measures the time between two ticks: one per parse, not one per batch — a 25 000-character
+                // LaTeX term takes seconds to read, and a batch reads each input some twenty times)
+                tick(s);
                 let single = exec::eparse_out(ff, s);
+                tick(s);
                 let again = exec::eparse_out(ff, s);
                 // C15: the kind of a parsed input depends on the items IT carries (budget ⇒ task, ...)
                 o.checked("C15");
@@ -1836,14 +1840,17 @@ fn seqs<W: Write>(r: &mut Rng, cfg: &TermCfg, n: usize, o: &mut Out<W>) {
                 }
             }
             // no history at all: the same inputs on a fresh thread (thread-local caches start empty there), in another order
+            // (history effects do not need long inputs: the extra readings are limited to inputs of at most 4 000 characters)
+            let inputs_all = inputs;
+            let inputs: Vec<String> = inputs_all.iter().filter(|s| s.chars().count() <= 4000).cloned().collect();
             {
-                let here: Vec<String> = inputs.iter().map(|s| exec::eparse_out(ff, s)).collect();
-                let lhere: Vec<String> = inputs.iter().map(|s| exec::exec("lparse", f, &ser::hs(s)).unwrap_or_default()).collect();
+                let here: Vec<String> = inputs.iter().map(|s| { tick(s); exec::eparse_out(ff, s) }).collect();
+                let lhere: Vec<String> = inputs.iter().map(|s| { tick(s); exec::exec("lparse", f, &ser::hs(s)).unwrap_or_default() }).collect();
                 let (inp, fname) = (inputs.clone(), f);
                 let fresh = std::thread::spawn(move || {
                     let ff = efmt(fname).unwrap();
-                    let mut e: Vec<String> = inp.iter().rev().map(|s| exec::eparse_out(ff, s)).collect();
-                    let mut l: Vec<String> = inp.iter().rev().map(|s| exec::exec("lparse", fname, &ser::hs(s)).unwrap_or_default()).collect();
+                    let mut e: Vec<String> = inp.iter().rev().map(|s| { tick(s); exec::eparse_out(ff, s) }).collect();
+                    let mut l: Vec<String> = inp.iter().rev().map(|s| { tick(s); exec::exec("lparse", fname, &ser::hs(s)).unwrap_or_default() }).collect();
                     e.reverse();
                     l.reverse();
                     (e, l)
@@ -1868,7 +1875,9 @@ fn seqs<W: Write>(r: &mut Rng, cfg: &TermCfg, n: usize, o: &mut Out<W>) {
                         continue;
                     }
                     let hs = ser::hs(s);
+                    tick(s);
                     let _ = (exec::eparse_out(ff, s), exec::exec("lparse", f, &hs));
+                    tick(s);
                     let e_after = exec::eparse_out(efmt(g).unwrap(), s);
                     let l_after = exec::exec("lparse", g, &hs).unwrap_or_default();
                     let (s2, hs2) = (s.clone(), hs.clone());
@@ -1886,6 +1895,7 @@ fn seqs<W: Write>(r: &mut Rng, cfg: &TermCfg, n: usize, o: &mut Out<W>) {
             // lexical parser reused on the shared static instance
             let lf = lfmt(f).unwrap();
             for s in &inputs {
+                tick(s);
                 let a = lf.parse(s).map_err(|_| ());
                 let b = lf.parse(s).map_err(|_| ());
                 if a != b {
